@@ -81,7 +81,13 @@ type world struct {
 	blockers []int
 	payloadN int
 	hung     bool
+	dead     bool // a call of this history never returns: no further operations
 }
+
+// lostN counts histories ended by a Dequeue that lost its queue; generation stops after a few
+var lostN int
+
+const lostCap = 25
 
 func newWorld(c *hx.Ctx, cap int) *world {
 	be := broker.NewMemoryBackend()
@@ -595,9 +601,27 @@ func (w *world) opDeq(n int) (fromTemp bool, ok bool) {
 	var r dq
 	select {
 	case r = <-ch:
-	case <-time.After(10 * time.Second):
-		w.hang(fmt.Sprintf("deq %d", n))
-		return false, false
+	case <-time.After(400 * time.Millisecond):
+		// the queues were not empty, so Dequeue has to return a message.  If it emptied them instead and keeps
+		// waiting, the queued messages are lost: report the observation and end this history (the call never
+		// returns; nothing else may touch this session's queues any more)
+		if t1, s1 := broker.VerifQueueLens(cl.sess); t1+s1 == 0 && w.blk == nil {
+			q := "s"
+			if t0 > 0 {
+				q = "t"
+			}
+			w.emit(fmt.Sprintf("deq %d %s", n, q), "lost", true)
+			w.c.Stat("deq_lost", 1)
+			w.dead = true
+			lostN++
+			return false, false
+		}
+		select {
+		case r = <-ch:
+		case <-time.After(10 * time.Second):
+			w.hang(fmt.Sprintf("deq %d", n))
+			return false, false
+		}
 	}
 	t1, s1 := broker.VerifQueueLens(cl.sess)
 	if w.blk != nil {
@@ -607,7 +631,7 @@ func (w *world) opDeq(n int) (fromTemp bool, ok bool) {
 			fromTemp = t1 == t0-1
 		}
 	} else {
-		fromTemp = t1 == t0-1
+		fromTemp = t1 < t0
 	}
 	_ = s1
 	q := "s"
@@ -647,6 +671,9 @@ func (w *world) opClose() {
 
 // release a blocked Publish: dequeue from every session it waits for, then let it return
 func (w *world) release() {
+	if w.dead {
+		return
+	}
 	for _, b := range w.blockers {
 		for i := 0; i < 2*w.cap+2 && !w.hung; i++ {
 			fromTemp, ok := w.opDeq(b)
@@ -663,7 +690,7 @@ func (w *world) release() {
 
 // takeover macro: finish a pending Setup the normal way (old connection terminates and closes)
 func (w *world) finishPending() {
-	if w.pendCli == nil {
+	if w.pendCli == nil || w.dead {
 		return
 	}
 	if w.pendKT {
@@ -680,7 +707,7 @@ func (w *world) finishPending() {
 
 // ---------------------------------------------------------------- text form of operations (generation and replay)
 func (w *world) execLine(f []string) {
-	if w.hung {
+	if w.hung || w.dead {
 		return
 	}
 	atoi := func(s string) int { n, _ := strconv.Atoi(s); return n }
@@ -737,6 +764,10 @@ type hist struct {
 var histN int
 
 func runHist(c *hx.Ctx, h hist, family string) {
+	if lostN >= lostCap {
+		c.Stats["stopped_after_lost_queues"] = 1
+		return
+	}
 	histN++
 	w := newWorld(c, h.cap)
 	c.Emit("hist %d %d", histN, h.cap)
@@ -747,10 +778,12 @@ func runHist(c *hx.Ctx, h hist, family string) {
 		}
 	}
 	// never leave goroutines behind
-	if w.blk != nil {
-		w.release()
+	if !w.dead {
+		if w.blk != nil {
+			w.release()
+		}
+		w.finishPending()
 	}
-	w.finishPending()
 	c.Stat("histories", 1)
 	c.Stat("histories_"+family, 1)
 	if len(w.lines) > 3 && (histN%977 == 1) {
@@ -919,7 +952,7 @@ func famExhaustive(c *hx.Ctx, depth int) {
 // F4: seeded random long histories
 func famRandom(c *hx.Ctx, count, maxLen int) {
 	r := c.Rng
-	for h := 0; h < count; h++ {
+	for h := 0; h < count && lostN < lostCap; h++ {
 		histN++
 		cap := []int{1, 2, 2, 3, 3, 100}[r.Intn(6)]
 		maxClients := 1 + r.Intn(6)
@@ -937,7 +970,7 @@ func famRandom(c *hx.Ctx, count, maxLen int) {
 			return out
 		}
 		n := 5 + r.Intn(maxLen)
-		for step := 0; step < n && !w.hung; step++ {
+		for step := 0; step < n && !w.hung && !w.dead; step++ {
 			if w.blk != nil {
 				w.release()
 				continue
